@@ -117,6 +117,7 @@ def run_cases(chk, cases, worker, procs=None):
     """Run worker(case) for each case in a process pool; each returns a partial result dict
     that is merged into chk.  worker must be a top-level function (picklable by name)."""
     import multiprocessing as mp
+    common.scratch_dir()       # created (and removed at exit) by the parent: forked workers share it
     procs = procs or min(len(cases), int(os.environ.get('VERIF_PROCS', '12')))
     if procs <= 1 or len(cases) <= 1:
         results = [worker(c) for c in cases]
